@@ -665,7 +665,7 @@ func (x *Exec) applyContract(c *CallCtx, ct *Contract) []Outcome {
 		results["r"] = vals[0]
 	}
 	env.results = results
-	st.calls = append(st.calls, CallRec{Name: ct.Func, Args: append([]Value(nil), c.args...), Rets: append([]Value(nil), vals...)})
+	st.calls = append(st.calls, CallRec{Name: ct.Func, Args: append([]Value(nil), c.args...), Rets: append([]Value(nil), vals...), Pre: pre})
 	if ct.Func == "FinalizeTokenDeposit" {
 		st.depositCalls++
 		if ev, ok := results["err"]; ok {
@@ -673,7 +673,7 @@ func (x *Exec) applyContract(c *CallCtx, ct *Contract) []Outcome {
 		}
 	}
 	for _, cl := range ct.Of("ensures") {
-		if strings.Contains(cl.Text, "$called(") || strings.Contains(cl.Text, "$arg(") || strings.Contains(cl.Text, "$ret(") ||
+		if strings.Contains(cl.Text, "$at(") || strings.Contains(cl.Text, "$called(") || strings.Contains(cl.Text, "$arg(") || strings.Contains(cl.Text, "$ret(") ||
 			strings.Contains(cl.Text, "$hook") || strings.Contains(cl.Text, "$nextCalled") || strings.Contains(cl.Text, "$errFromDeposit") || strings.Contains(cl.Text, "$depositCalls") {
 			// clauses about the callee body's own call structure are checked when the callee is verified;
 			// they say nothing a caller could use
@@ -1130,6 +1130,18 @@ func (c *cenv) TypedUF(name string) ([]types.Type, types.Type, bool) {
 		return []types.Type{types.Typ[types.Int]}, types.Typ[types.Int64], true
 	}
 	return nil, nil, false
+}
+
+// AtCall gives the environment in which the last by-contract call of fn on this path was made ($at).
+func (c *cenv) AtCall(fn string) (SpecEnv, bool) {
+	for k := len(c.st.calls) - 1; k >= 0; k-- {
+		if c.st.calls[k].Name == fn && c.st.calls[k].Pre != nil {
+			n := *c
+			n.st = c.st.calls[k].Pre
+			return &n, true
+		}
+	}
+	return c, false
 }
 
 // CallInfo exposes the recorded by-contract calls of the current path to postconditions.
